@@ -20,8 +20,8 @@
     item of [items] for the value [a] with the formatter and runs [unambiguous_ws_b]. *)
 From Coq Require Import ZArith List Bool.
 From V Require Import Base.Int Base.IO Base.Utf8 Model.Scan Model.Items Model.Parse
-  Proofs.Utf8 Proofs.Scan Proofs.C13 Proofs.C13Reads Proofs.C13Fmt Proofs.C13Examples Proofs.C13Names Proofs.C13Digits Proofs.C13Safe Proofs.C13Time Proofs.C13Date Proofs.C13OneWay.
-From V Require Model.Parsed Model.Format Model.Strftime Model.Time Spec.StrftimeDoc.
+  Proofs.Utf8 Proofs.Scan Proofs.C13 Proofs.C13Reads Proofs.C13Fmt Proofs.C13Examples Proofs.C13Names Proofs.C13Digits Proofs.C13Safe Proofs.C13Time Proofs.C13Date Proofs.C13OneWay Proofs.C13View Proofs.C13DateTime Proofs.C13DateForms Proofs.C13TimeForms Proofs.C13Zoned Proofs.C13General Proofs.C13Static Proofs.C13ZonedGeneral.
+From V Require Model.Parsed Model.Format Model.Strftime Model.Time Model.DateTime Spec.StrftimeDoc Spec.Gregorian Proofs.C12 Proofs.C14.
 Import ListNotations.
 Open Scope Z_scope.
 
@@ -259,6 +259,483 @@ Example C13_date_ymd_roundtrip_inhabited :
   Proofs.C08Sweeps.repr 262142 365 (Proofs.C08Sweeps.mkdate 262142 365).
 Proof. exact date_ymd_roundtrip_inhabited. Qed.
 Print Assumptions C13_date_ymd_roundtrip_inhabited.
+
+(** ** format_parse_roundtrip END TO END for NaiveDateTime with "%Y-%m-%dT%H:%M:%S" and
+    "%Y-%m-%d %H:%M:%S" (item lists [NDT_T_FMT] / [NDT_SP_FMT]; also spelled %FT%T / %F %T): for EVERY
+    in-range date and EVERY time of day, leap second on :59 included, parsing the formatted text
+    returns the value truncated to whole seconds (leap flag kept) -- through formatter, reader and
+    Parsed::to_naive_datetime_with_offset (date by C14's completeness theorem, time by C14's
+    to_naive_time completeness, the timestamp cross-check by the calendar lemmas). *)
+Theorem C13_ndt_roundtrip : forall y o v items,
+  Proofs.C08Sweeps.repr y o (Model.DateTime.nd_date v) -> valid_time (Model.DateTime.nd_time v) ->
+  In items [NDT_T_FMT; NDT_SP_FMT] ->
+  exists text,
+    Model.Format.write_items (Model.Format.fa_of_ndt v) items [] = Model.Format.fok text /\
+    (let+ p := parse Model.Parsed.parsed_new text items in
+     pr_of (Model.Parsed.to_naive_datetime_with_offset p 0)) = pok (trunc_ndt v).
+Proof. exact ndt_roundtrip. Qed.
+Print Assumptions C13_ndt_roundtrip.
+
+Theorem C13_ndt_parse_from_str : forall y o v fmt,
+  Proofs.C08Sweeps.repr y o (Model.DateTime.nd_date v) -> valid_time (Model.DateTime.nd_time v) ->
+  In fmt ndt_formats ->
+  exists text,
+    Model.Format.delayed_display (Model.Format.fa_of_ndt v) (Model.Strftime.sf_new fmt) = Model.Format.fok text /\
+    ndt_parse_from_str text fmt = pok (trunc_ndt v).
+Proof. exact ndt_sep_parse_from_str. Qed.
+Print Assumptions C13_ndt_parse_from_str.
+
+Example C13_ndt_roundtrip_inhabited :
+  Proofs.C08Sweeps.repr 2015 181 (Proofs.C08Sweeps.mkdate 2015 181) /\ valid_time (Model.Time.mk_time 86399 1999999999).
+Proof. exact ndt_roundtrip_inhabited. Qed.
+Print Assumptions C13_ndt_roundtrip_inhabited.
+
+(** ** format_parse_roundtrip END TO END for the other two date forms of NaiveDate: the ordinal form
+    "%Y-%j" ([YJ_FMT]) and the ISO week form "%G-W%V-%u" ([ISOW_FMT]; ISO year with its sign outside
+    0..=9999, ISO week 01..53, weekday 1..7 from Monday).  For EVERY NaiveDate, parsing the formatted
+    text returns the date itself; resolution by C14's completeness theorem on the (year, ordinal)
+    and (ISO year, ISO week, weekday) combinations. *)
+Theorem C13_date_yj_roundtrip : forall y o d, Proofs.C08Sweeps.repr y o d ->
+  exists text,
+    Model.Format.write_items (Model.Format.fa_of_date d) YJ_FMT [] = Model.Format.fok text /\
+    (let+ p := parse Model.Parsed.parsed_new text YJ_FMT in pr_of (Model.Parsed.to_naive_date p)) = pok d.
+Proof. exact date_yj_roundtrip. Qed.
+Print Assumptions C13_date_yj_roundtrip.
+
+Theorem C13_date_yj_parse_from_str : forall y o d, Proofs.C08Sweeps.repr y o d ->
+  exists text,
+    Model.Format.delayed_display (Model.Format.fa_of_date d) (Model.Strftime.sf_new yj_format) = Model.Format.fok text /\
+    date_parse_from_str text yj_format = pok d.
+Proof. exact date_yj_parse_from_str. Qed.
+Print Assumptions C13_date_yj_parse_from_str.
+
+Theorem C13_date_isow_roundtrip : forall y o d, Proofs.C08Sweeps.repr y o d ->
+  exists text,
+    Model.Format.write_items (Model.Format.fa_of_date d) ISOW_FMT [] = Model.Format.fok text /\
+    (let+ p := parse Model.Parsed.parsed_new text ISOW_FMT in pr_of (Model.Parsed.to_naive_date p)) = pok d.
+Proof. exact date_isow_roundtrip. Qed.
+Print Assumptions C13_date_isow_roundtrip.
+
+Theorem C13_date_isow_parse_from_str : forall y o d, Proofs.C08Sweeps.repr y o d ->
+  exists text,
+    Model.Format.delayed_display (Model.Format.fa_of_date d) (Model.Strftime.sf_new isow_format) = Model.Format.fok text /\
+    date_parse_from_str text isow_format = pok d.
+Proof. exact date_isow_parse_from_str. Qed.
+Print Assumptions C13_date_isow_parse_from_str.
+
+Example C13_date_forms_roundtrip_inhabited :
+  Proofs.C08Sweeps.repr 2014 365 (Proofs.C08Sweeps.mkdate 2014 365) /\
+  Proofs.C08Sweeps.repr (-262143) 1 (Proofs.C08Sweeps.mkdate (-262143) 1).
+Proof. exact date_forms_roundtrip_inhabited. Qed.
+Print Assumptions C13_date_forms_roundtrip_inhabited.
+
+(** ** format_parse_roundtrip END TO END for NaiveTime with a fraction and in 12-hour form, for
+    EVERY time of day (leap second on :59 included; second 60 is printed and read back):
+    "%H:%M:%S%.f" ([HMSF F_Nanosecond]; the shortest of 0 / 3 / 6 / 9 digits): the value itself;
+    "%H:%M:%S%.3f" / "%.6f" / "%.9f" ([HMSF (fixed_frac k)]): the value truncated to the printed
+    precision [trunc_frac k] -- the truncation the property states; nothing is lost with %.9f;
+    "%I:%M:%S %p" / %r ([IMSP_FMT]): the value truncated to whole seconds.
+    Through formatter, reader and Parsed::to_naive_time (C14's completeness theorem). *)
+Theorem C13_time_auto_roundtrip : forall t, valid_time t ->
+  exists text,
+    Model.Format.write_items (Model.Format.fa_of_time t) (HMSF F_Nanosecond) [] = Model.Format.fok text /\
+    (let+ p := parse Model.Parsed.parsed_new text (HMSF F_Nanosecond) in pr_of (Model.Parsed.to_naive_time p)) = pok t.
+Proof. exact time_auto_roundtrip. Qed.
+Print Assumptions C13_time_auto_roundtrip.
+
+Theorem C13_time_auto_parse_from_str : forall t fmt, valid_time t -> In fmt time_auto_formats ->
+  exists text,
+    Model.Format.delayed_display (Model.Format.fa_of_time t) (Model.Strftime.sf_new fmt) = Model.Format.fok text /\
+    time_parse_from_str text fmt = pok t.
+Proof. exact time_auto_parse_from_str. Qed.
+Print Assumptions C13_time_auto_parse_from_str.
+
+Theorem C13_time_frac_roundtrip : forall t k, valid_time t -> k = 3 \/ k = 6 \/ k = 9 ->
+  exists text,
+    Model.Format.write_items (Model.Format.fa_of_time t) (HMSF (fixed_frac k)) [] = Model.Format.fok text /\
+    (let+ p := parse Model.Parsed.parsed_new text (HMSF (fixed_frac k)) in pr_of (Model.Parsed.to_naive_time p))
+    = pok (trunc_frac k t).
+Proof. exact time_frac_roundtrip. Qed.
+Print Assumptions C13_time_frac_roundtrip.
+
+Theorem C13_time_frac_parse_from_str : forall t k, valid_time t -> k = 3 \/ k = 6 \/ k = 9 ->
+  exists text,
+    Model.Format.delayed_display (Model.Format.fa_of_time t) (Model.Strftime.sf_new (time_frac_format k)) = Model.Format.fok text /\
+    time_parse_from_str text (time_frac_format k) = pok (trunc_frac k t).
+Proof. exact time_frac_parse_from_str. Qed.
+Print Assumptions C13_time_frac_parse_from_str.
+
+Theorem C13_trunc_frac_9_is_identity : forall t, valid_time t -> trunc_frac 9 t = t.
+Proof. exact trunc_frac_9. Qed.
+Print Assumptions C13_trunc_frac_9_is_identity.
+
+Theorem C13_time_12h_roundtrip : forall t, valid_time t ->
+  exists text,
+    Model.Format.write_items (Model.Format.fa_of_time t) IMSP_FMT [] = Model.Format.fok text /\
+    (let+ p := parse Model.Parsed.parsed_new text IMSP_FMT in pr_of (Model.Parsed.to_naive_time p)) = pok (trunc_secs t).
+Proof. exact time_12h_roundtrip. Qed.
+Print Assumptions C13_time_12h_roundtrip.
+
+Theorem C13_time_12h_parse_from_str : forall t fmt, valid_time t -> In fmt time_12h_formats ->
+  exists text,
+    Model.Format.delayed_display (Model.Format.fa_of_time t) (Model.Strftime.sf_new fmt) = Model.Format.fok text /\
+    time_parse_from_str text fmt = pok (trunc_secs t).
+Proof. exact time_12h_parse_from_str. Qed.
+Print Assumptions C13_time_12h_parse_from_str.
+
+Example C13_time_forms_inhabited :
+  valid_time (Model.Time.mk_time 86399 1999999999) /\
+  trunc_frac 3 (Model.Time.mk_time 86399 1999999999) = Model.Time.mk_time 86399 1999000000 /\
+  trunc_frac 6 (Model.Time.mk_time 2094 26490708) = Model.Time.mk_time 2094 26490000.
+Proof. exact time_forms_inhabited. Qed.
+Print Assumptions C13_time_forms_inhabited.
+
+(** ** format_parse_roundtrip END TO END for DateTime<FixedOffset> with "%Y-%m-%dT%H:%M:%S%z"
+    ([DTZ_FMT false]) and "%Y-%m-%dT%H:%M:%S%:z" ([DTZ_FMT true]).  [valid_dtz yu ou z]: the UTC date
+    is the NaiveDate (yu, ou), the time is a time of day (leap second on :59 allowed), the offset is
+    a whole number of minutes strictly inside +-24 h (the two items print hours and minutes only:
+    other offsets are rounded) and the wall-clock date is itself a NaiveDate (fails only on the
+    first / last day of the range, C09's recorded finding).  Parsing the formatted text returns the
+    value truncated to whole seconds with the same offset -- through format_with_items
+    (overflowing_naive_local, the offset's Display name), formatter, reader and Parsed::to_datetime
+    (date, time, timestamp cross-check with the offset, east_opt, from_local_datetime). *)
+Theorem C13_dtz_roundtrip : forall yu ou z colon, valid_dtz yu ou z ->
+  exists a text,
+    Model.Format.fa_of_dtz z = Val a /\
+    Model.Format.write_items a (DTZ_FMT colon) [] = Model.Format.fok text /\
+    (let+ p := parse Model.Parsed.parsed_new text (DTZ_FMT colon) in pr_of (Model.Parsed.to_datetime p)) = pok (trunc_dtz z).
+Proof. exact dtz_roundtrip. Qed.
+Print Assumptions C13_dtz_roundtrip.
+
+Theorem C13_dtz_parse_from_str : forall yu ou z colon, valid_dtz yu ou z ->
+  exists a text,
+    Model.Format.fa_of_dtz z = Val a /\
+    Model.Format.delayed_display a (Model.Strftime.sf_new (dtz_format colon)) = Model.Format.fok text /\
+    dt_parse_from_str text (dtz_format colon) = pok (trunc_dtz z).
+Proof. exact dtz_parse_from_str. Qed.
+Print Assumptions C13_dtz_parse_from_str.
+
+Example C13_dtz_roundtrip_inhabited :
+  valid_dtz 2016 366 (Model.DateTime.mk_dtz (Model.DateTime.mk_ndt (Proofs.C08Sweeps.mkdate 2016 366)
+                        (Model.Time.mk_time 86399 1500000000)) (-34200)).
+Proof. exact dtz_roundtrip_inhabited. Qed.
+Print Assumptions C13_dtz_roundtrip_inhabited.
+
+(* the writes of the reader run through the real setters: whenever every recognised write puts a
+   field of the record [F] (within the setter's range) the setters succeed from any record below
+   [F] -- repeated and redundant items included -- and the result stays below [F] *)
+Theorem C13_writes_below_view : forall F ws p, Proofs.C14.extends p F -> Forall (w_ok F) ws ->
+  run_writes ws p = pok (apply_ws ws p) /\ Proofs.C14.extends (apply_ws ws p) F.
+Proof. exact run_view. Qed.
+Print Assumptions C13_writes_below_view.
+
+(** ** The GENERAL composition (formatter -> text -> reader -> Parsed -> resolution) over arbitrary item
+    lists.  Vocabulary: [sv] is the specification-level value of C12 (Spec/StrftimeDoc.v: day number,
+    second of the day, nanoseconds, leap flag); [doc_render sv it] the documented rendering of item
+    [it] for it ([render_num] / [render_fix] of the documentation table; [None] for an unsupported item
+    kind, a field the value lacks, or no documented claim); [gview sv on] the field record holding
+    every date / time field of the value, [on] being the nanosecond field the fraction items print
+    ([doc_item sv on it t]: [t] is the documented rendering and the item's fraction, if any, is [on]).
+    Supported item kinds: literals, white space, every Numeric item except IsoYearDiv100 and Timestamp,
+    month and weekday names, AM/PM, %.f %.3f %.6f %.9f %3f %6f %9f, %z %:z (on whole-minute offsets). *)
+(* through C12: the documented rendering is what the formatter prints *)
+Theorem C13_doc_render_is_printed : forall a sv it t, Proofs.C12.args_view a sv ->
+  doc_render sv it = Some t -> Model.Format.format_item a it = Model.Format.fok t.
+Proof. exact doc_render_renders. Qed.
+Print Assumptions C13_doc_render_is_printed.
+
+(* the link that was missing: whatever the reader recognises in the documented rendering of an item
+   is a write of a field OF THE VALUE, within the setter's range (no follow condition needed) *)
+Theorem C13_item_value : forall sv on it t rest w, sv_bounds sv ->
+  (forall o, Spec.StrftimeDoc.sv_off sv = Some o -> o mod 60 = 0) -> doc_item sv on it t ->
+  reads_b it t rest = Some w -> w_ok (gview sv on) w.
+Proof. exact item_value. Qed.
+Print Assumptions C13_item_value.
+
+Theorem C13_numeric_reads_value : forall spec width (signed : bool) code p w force x rest wr,
+  numeric_entry spec = Some (width, signed, code) ->
+  reads_numeric spec (Spec.StrftimeDoc.pad_num p w force x) rest = Some wr ->
+  wr = W_code code x /\ (signed = false -> 0 <= x).
+Proof. exact reads_pad_num_value. Qed.
+Print Assumptions C13_numeric_reads_value.
+
+(* the view is typed and sound for the date it was taken from (C14's vocabulary) *)
+Theorem C13_view_sound : forall sv on d dn, Spec.StrftimeDoc.sv_dn sv = Some dn -> Proofs.C12.date_view d dn ->
+  Proofs.C14.date_sound (gview sv on) d.
+Proof. exact gview_date_sound. Qed.
+Print Assumptions C13_view_sound.
+
+(** format_parse_roundtrip, GENERAL form.  PARTIAL -- side conditions that remain:
+    (1) the items are of the supported kinds and have a documented rendering for the value
+        ([doc_item]; excludes %s, %Z, %::z %:::z %#z, %+, RFC 2822, and %C %y %g on negative years);
+    (2) the text is accepted by [unambiguous_b] (hypothesis, decidable for a given value; the variant
+        [unambiguous_ws_b] for space-padded numbers right after white space is not lifted);
+    (3) the field set the reader builds contains a documented sufficient combination
+        ([date_comb_b Y IY] / [time_comb_b], decidable): each year group absent or given in full, or as
+        century + two-digit year, or as the two-digit year alone when the (ISO) year is in 1970..=2069;
+    (4) all fraction items of the list print the same nanosecond value [on];
+    (5) for DateTime<FixedOffset> (C13_general_dtz_roundtrip_partial below) the value is in [valid_dtz]:
+        whole-minute offset, wall-clock date a NaiveDate.
+    Result: parsing the formatted text returns the date itself / the time [time_kept p t] made of the
+    printed fields of [t] (hour and minute; the second with the leap flag if printed, else 0; the
+    printed fraction digits [on] if any) / the date-time of both. *)
+Theorem C13_general_date_roundtrip_partial : forall y o d items texts ws,
+  Proofs.C08Sweeps.repr y o d ->
+  Forall2 (doc_item (sv_of_date (Spec.Gregorian.dn_of_yo y o)) None) items texts ->
+  unambiguous_b (combine items texts) [] = Some ws ->
+  date_comb_b y (fst (Spec.Gregorian.iso_of_dn (Spec.Gregorian.dn_of_yo y o))) (apply_ws ws Model.Parsed.parsed_new) = true ->
+  Model.Format.write_items (Model.Format.fa_of_date d) items [] = Model.Format.fok (List.concat texts) /\
+  (let+ p := parse Model.Parsed.parsed_new (List.concat texts) items in pr_of (Model.Parsed.to_naive_date p)) = pok d.
+Proof. exact general_date_roundtrip. Qed.
+Print Assumptions C13_general_date_roundtrip_partial.
+
+Theorem C13_general_time_roundtrip_partial : forall t on items texts ws,
+  valid_time t -> (forall n, on = Some n -> 0 <= n <= 999999999) ->
+  Forall2 (doc_item (sv_of_time t) on) items texts ->
+  unambiguous_b (combine items texts) [] = Some ws ->
+  time_comb_b (apply_ws ws Model.Parsed.parsed_new) = true ->
+  Model.Format.write_items (Model.Format.fa_of_time t) items [] = Model.Format.fok (List.concat texts) /\
+  (let+ p := parse Model.Parsed.parsed_new (List.concat texts) items in pr_of (Model.Parsed.to_naive_time p))
+    = pok (time_kept (apply_ws ws Model.Parsed.parsed_new) t) /\
+  (forall v, Model.Parsed.p_second (apply_ws ws Model.Parsed.parsed_new) = Some v -> v = ss t) /\
+  (forall n, Model.Parsed.p_nanosecond (apply_ws ws Model.Parsed.parsed_new) = Some n -> on = Some n).
+Proof. exact general_time_roundtrip. Qed.
+Print Assumptions C13_general_time_roundtrip_partial.
+
+Theorem C13_general_ndt_roundtrip_partial : forall y o d t on items texts ws,
+  Proofs.C08Sweeps.repr y o d -> valid_time t -> (forall n, on = Some n -> 0 <= n <= 999999999) ->
+  Forall2 (doc_item (sv_of_ndt (Spec.Gregorian.dn_of_yo y o) t) on) items texts ->
+  unambiguous_b (combine items texts) [] = Some ws ->
+  date_comb_b y (fst (Spec.Gregorian.iso_of_dn (Spec.Gregorian.dn_of_yo y o))) (apply_ws ws Model.Parsed.parsed_new) = true ->
+  time_comb_b (apply_ws ws Model.Parsed.parsed_new) = true ->
+  Model.Format.write_items (Model.Format.fa_of_ndt (Model.DateTime.mk_ndt d t)) items [] = Model.Format.fok (List.concat texts) /\
+  (let+ p := parse Model.Parsed.parsed_new (List.concat texts) items in
+   pr_of (Model.Parsed.to_naive_datetime_with_offset p 0)) =
+    pok (Model.DateTime.mk_ndt d (time_kept (apply_ws ws Model.Parsed.parsed_new) t)) /\
+  (forall v, Model.Parsed.p_second (apply_ws ws Model.Parsed.parsed_new) = Some v -> v = ss t) /\
+  (forall n, Model.Parsed.p_nanosecond (apply_ws ws Model.Parsed.parsed_new) = Some n -> on = Some n).
+Proof. exact general_ndt_roundtrip. Qed.
+Print Assumptions C13_general_ndt_roundtrip_partial.
+
+(* with the seconds printed, [time_kept] is the value with its fraction cut to the printed digits *)
+Theorem C13_time_kept_with_seconds : forall p t, valid_time t -> Model.Parsed.p_second p = Some (ss t) ->
+  time_kept p t = Model.Time.mk_time (Model.Time.tsecs t) (leap_part t + Model.Parsed.unwrap_or (Model.Parsed.p_nanosecond p) 0).
+Proof. exact time_kept_seconds. Qed.
+Print Assumptions C13_time_kept_with_seconds.
+
+(* all hypotheses of the general theorem are decided by computation for a given value and item list *)
+Theorem C13_general_ndt_check_sound : forall y o d t on items,
+  Proofs.C08Sweeps.repr y o d -> valid_time t -> general_ndt_check (Spec.Gregorian.dn_of_yo y o) t on items = true ->
+  exists text t',
+    Model.Format.write_items (Model.Format.fa_of_ndt (Model.DateTime.mk_ndt d t)) items [] = Model.Format.fok text /\
+    (let+ p := parse Model.Parsed.parsed_new text items in pr_of (Model.Parsed.to_naive_datetime_with_offset p 0))
+      = pok (Model.DateTime.mk_ndt d t').
+Proof. exact general_ndt_check_sound. Qed.
+Print Assumptions C13_general_ndt_check_sound.
+
+(* inhabited: "%A, %d %B %Y %I:%M:%S%.3f %p", a form without seconds, adjacent full-width fields;
+   an unpadded month in front of the day is rejected; the two-digit year alone inside / outside the pivot window *)
+Example C13_general_members :
+  general_ndt_check (Spec.Gregorian.dn_of_yo 2015 365) (Model.Time.mk_time 86399 987654321) (Some 987000000) ex_general_items = true /\
+  general_ndt_check (Spec.Gregorian.dn_of_yo 2015 365) (Model.Time.mk_time 86399 987654321) None
+    [num0 N_Year; Literal [45]; num0 N_Month; Literal [45]; num0 N_Day; Space [32]; num0 N_Hour; Literal [58]; num0 N_Minute] = true /\
+  general_ndt_check (Spec.Gregorian.dn_of_yo 2015 365) (Model.Time.mk_time 0 0) None
+    [num0 N_Year; num0 N_Month; num0 N_Day; num0 N_Hour; num0 N_Minute] = true /\
+  general_ndt_check (Spec.Gregorian.dn_of_yo 2015 36) (Model.Time.mk_time 0 0) None
+    [num0 N_Year; Literal [45]; num N_Month; num0 N_Day; Space [32]; num0 N_Hour; Literal [58]; num0 N_Minute] = false /\
+  general_ndt_check (Spec.Gregorian.dn_of_yo 2015 36) (Model.Time.mk_time 0 0) None
+    [num0 N_YearMod100; Literal [45]; num0 N_Month; Literal [45]; num0 N_Day; Space [32]; num0 N_Hour; Literal [58]; num0 N_Minute] = true /\
+  general_ndt_check (Spec.Gregorian.dn_of_yo 1969 36) (Model.Time.mk_time 0 0) None
+    [num0 N_YearMod100; Literal [45]; num0 N_Month; Literal [45]; num0 N_Day; Space [32]; num0 N_Hour; Literal [58]; num0 N_Minute] = false.
+Proof. exact ex_general_member. Qed.
+Print Assumptions C13_general_members.
+
+(** ** The same with premises on the ITEM LIST ONLY, for EVERY value.  [static_ok items] decides a class
+    of item lists whose documented renderings the reader takes back whatever the value: every Numeric
+    item (supported kinds except %C %y %g, whose two-digit / century forms are not printed-and-read for
+    negative years) either fills the reader's width (zero padded two-digit fields, %j, %f; the
+    one-digit fields) or is followed by text that cannot start with a digit -- a year always needs
+    that; a white-space item is not followed by text that can start with white space; %.f %.3f %.6f
+    %.9f are followed by neither a digit nor, for %.f, a dot; literals are ASCII.  [it_kind_ok] says
+    the value has the fields the items print; [static_date_ok] / [static_time_ok] decide the
+    sufficient combination on the fields the items write ([sfields]); [frac_class_ok k] that all
+    fraction items print the same precision [k].  The class is a decidable under-approximation of
+    "unambiguous and sufficient": the C13_general_*_partial theorems remain for lists outside it. *)
+Theorem C13_class_accepted_for_every_value : forall sv on, sv_bounds sv ->
+  (forall o, Spec.StrftimeDoc.sv_off sv = Some o -> o mod 60 = 0) -> forall items texts,
+  static_ok items = true -> Forall2 (doc_item sv on) items texts ->
+  exists ws, unambiguous_b (combine items texts) [] = Some ws.
+Proof. exact static_accept. Qed.
+Print Assumptions C13_class_accepted_for_every_value.
+
+Theorem C13_class_date_roundtrip : forall items,
+  static_ok items = true -> forallb (it_kind_ok true false false) items = true -> static_date_ok items = true ->
+  forall y o d, Proofs.C08Sweeps.repr y o d ->
+  exists text,
+    Model.Format.write_items (Model.Format.fa_of_date d) items [] = Model.Format.fok text /\
+    (let+ p := parse Model.Parsed.parsed_new text items in pr_of (Model.Parsed.to_naive_date p)) = pok d.
+Proof. exact static_date_roundtrip. Qed.
+Print Assumptions C13_class_date_roundtrip.
+
+(* [static_time_value items k t]: [t] with the second (and leap flag) kept iff an item prints it, else
+   the whole minute; the fraction cut to [k] digits iff a fraction item is present, else dropped *)
+Theorem C13_class_time_roundtrip : forall items k,
+  static_ok items = true -> forallb (it_kind_ok false true false) items = true -> static_time_ok items = true ->
+  frac_class_ok k items = true -> k = 3 \/ k = 6 \/ k = 9 ->
+  forall t, valid_time t ->
+  exists text,
+    Model.Format.write_items (Model.Format.fa_of_time t) items [] = Model.Format.fok text /\
+    (let+ q := parse Model.Parsed.parsed_new text items in pr_of (Model.Parsed.to_naive_time q))
+      = pok (static_time_value items k t).
+Proof. exact static_time_roundtrip. Qed.
+Print Assumptions C13_class_time_roundtrip.
+
+Theorem C13_class_ndt_roundtrip : forall items k,
+  static_ok items = true -> forallb (it_kind_ok true true false) items = true ->
+  static_date_ok items = true -> static_time_ok items = true ->
+  frac_class_ok k items = true -> k = 3 \/ k = 6 \/ k = 9 ->
+  forall y o d t, Proofs.C08Sweeps.repr y o d -> valid_time t ->
+  exists text,
+    Model.Format.write_items (Model.Format.fa_of_ndt (Model.DateTime.mk_ndt d t)) items [] = Model.Format.fok text /\
+    (let+ q := parse Model.Parsed.parsed_new text items in pr_of (Model.Parsed.to_naive_datetime_with_offset q 0)) =
+      pok (Model.DateTime.mk_ndt d (static_time_value items k t)).
+Proof. exact static_ndt_roundtrip. Qed.
+Print Assumptions C13_class_ndt_roundtrip.
+
+(* members by computation on the item list alone: the families above, "%A, %d %B %Y %I:%M:%S%.3f %p",
+   "%d/%m/%Y %H:%M", "%j of %Y,%k:%M:%S%.f", "%G-W%V-%a %H:%M"; non-members: "%Y%m%dT%H%M%S" (a digit
+   after the year), "%Y-%m-%d %H:%M%.3f" (a fraction without the seconds) *)
+Example C13_class_members :
+  ndt_static 9 NDT_T_FMT = true /\ ndt_static 9 NDT_SP_FMT = true /\
+  ndt_static 3 ex_general_items = true /\
+  ndt_static 9 [num0 N_Year; num0 N_Month; num0 N_Day; Literal [84]; num0 N_Hour; num0 N_Minute; num0 N_Second] = false /\
+  ndt_static 9 [num0 N_Day; Literal [47]; num0 N_Month; Literal [47]; num0 N_Year; Space [32]; num0 N_Hour; Literal [58]; num0 N_Minute] = true /\
+  ndt_static 9 [num0 N_Ordinal; Literal [32; 111; 102; 32]; num0 N_Year; Literal [44]; nums N_Hour; Literal [58]; num0 N_Minute;
+                Literal [58]; num0 N_Second; IFixed F_Nanosecond] = true /\
+  ndt_static 9 [num0 N_IsoYear; Literal [45; 87]; num0 N_IsoWeek; Literal [45]; IFixed F_ShortWeekdayName; Space [32];
+                num0 N_Hour; Literal [58]; num0 N_Minute] = true /\
+  ndt_static 3 (YMD_FMT ++ [Space [32]; num0 N_Hour; Literal [58]; num0 N_Minute; IFixed F_Nanosecond3]) = false /\
+  (static_ok YMD_FMT && forallb (it_kind_ok true false false) YMD_FMT && static_date_ok YMD_FMT) = true /\
+  (static_ok YJ_FMT && forallb (it_kind_ok true false false) YJ_FMT && static_date_ok YJ_FMT) = true /\
+  (static_ok ISOW_FMT && forallb (it_kind_ok true false false) ISOW_FMT && static_date_ok ISOW_FMT) = true /\
+  (static_ok IMSP_FMT && forallb (it_kind_ok false true false) IMSP_FMT && static_time_ok IMSP_FMT) = true /\
+  (static_ok (HMSF F_Nanosecond) && forallb (it_kind_ok false true false) (HMSF F_Nanosecond) && static_time_ok (HMSF F_Nanosecond)
+   && frac_class_ok 9 (HMSF F_Nanosecond)) = true.
+Proof. exact static_members. Qed.
+Print Assumptions C13_class_members.
+
+(* ... and over format STRINGS: [items_of fmt] is what StrftimeItems::new(fmt) yields; whenever that list is
+   of the class, X::parse_from_str(&v.format(fmt).to_string(), fmt) = Ok(v with the printed fields) for
+   every value v *)
+Theorem C13_class_date_parse_from_str : forall fmt items,
+  items_of fmt = Val (Some items) ->
+  static_ok items = true -> forallb (it_kind_ok true false false) items = true -> static_date_ok items = true ->
+  forall y o d, Proofs.C08Sweeps.repr y o d ->
+  exists text,
+    Model.Format.delayed_display (Model.Format.fa_of_date d) (Model.Strftime.sf_new fmt) = Model.Format.fok text /\
+    date_parse_from_str text fmt = pok d.
+Proof. exact class_date_parse_from_str. Qed.
+Print Assumptions C13_class_date_parse_from_str.
+
+Theorem C13_class_time_parse_from_str : forall fmt items k,
+  items_of fmt = Val (Some items) ->
+  static_ok items = true -> forallb (it_kind_ok false true false) items = true -> static_time_ok items = true ->
+  frac_class_ok k items = true -> k = 3 \/ k = 6 \/ k = 9 ->
+  forall t, valid_time t ->
+  exists text,
+    Model.Format.delayed_display (Model.Format.fa_of_time t) (Model.Strftime.sf_new fmt) = Model.Format.fok text /\
+    time_parse_from_str text fmt = pok (static_time_value items k t).
+Proof. exact class_time_parse_from_str. Qed.
+Print Assumptions C13_class_time_parse_from_str.
+
+Theorem C13_class_ndt_parse_from_str : forall fmt items k,
+  items_of fmt = Val (Some items) ->
+  static_ok items = true -> forallb (it_kind_ok true true false) items = true ->
+  static_date_ok items = true -> static_time_ok items = true ->
+  frac_class_ok k items = true -> k = 3 \/ k = 6 \/ k = 9 ->
+  forall y o d t, Proofs.C08Sweeps.repr y o d -> valid_time t ->
+  exists text,
+    Model.Format.delayed_display (Model.Format.fa_of_ndt (Model.DateTime.mk_ndt d t)) (Model.Strftime.sf_new fmt) = Model.Format.fok text /\
+    ndt_parse_from_str text fmt = pok (Model.DateTime.mk_ndt d (static_time_value items k t)).
+Proof. exact class_ndt_parse_from_str. Qed.
+Print Assumptions C13_class_ndt_parse_from_str.
+
+(* "%A, %d %B %Y %I:%M:%S%.3f %p", "%d/%m/%Y %H:%M", "%FT%T%.f" are of the class; "%D %R" (two-digit year) is not *)
+Example C13_class_format_strings :
+  fmt_ndt_class 3 [37;65;44;32;37;100;32;37;66;32;37;89;32;37;73;58;37;77;58;37;83;37;46;51;102;32;37;112] = true /\
+  fmt_ndt_class 9 [37;100;47;37;109;47;37;89;32;37;72;58;37;77] = true /\
+  fmt_ndt_class 9 [37;70;84;37;84;37;46;102] = true /\
+  fmt_ndt_class 9 [37;68;32;37;82] = false.
+Proof. exact class_format_strings. Qed.
+Print Assumptions C13_class_format_strings.
+
+(** ** DateTime<FixedOffset> in the general composition and in the item-list class: the fields are those
+    of the wall clock ([sv_of_dtz]: local day number and local time) plus the offset; the result is the
+    instant whose wall clock has the printed fields, [back_time off] taking a wall-clock time back to UTC *)
+Theorem C13_general_dtz_roundtrip_partial : forall yu ou du su fu off on items texts ws,
+  let z := Model.DateTime.mk_dtz (Model.DateTime.mk_ndt du (Model.Time.mk_time su fu)) off in
+  let n := Spec.Gregorian.dn_of_yo yu ou + (su + off) / 86400 in
+  let yl := fst (Spec.Gregorian.yo_of_dn n) in let ol := snd (Spec.Gregorian.yo_of_dn n) in
+  let tl := Model.Time.mk_time ((su + off) mod 86400) fu in
+  let sv := sv_of_dtz (Spec.Gregorian.dn_of_yo yl ol) tl off in
+  valid_dtz yu ou z -> (forall k, on = Some k -> 0 <= k <= 999999999) ->
+  Forall2 (doc_item sv on) items texts ->
+  unambiguous_b (combine items texts) [] = Some ws ->
+  date_comb_b yl (fst (Spec.Gregorian.iso_of_dn (Spec.Gregorian.dn_of_yo yl ol))) (apply_ws ws Model.Parsed.parsed_new) = true ->
+  time_comb_b (apply_ws ws Model.Parsed.parsed_new) = true ->
+  some_b (Model.Parsed.p_offset (apply_ws ws Model.Parsed.parsed_new)) = true ->
+  exists a,
+    Model.Format.fa_of_dtz z = Val a /\
+    Model.Format.write_items a items [] = Model.Format.fok (List.concat texts) /\
+    (let+ q := parse Model.Parsed.parsed_new (List.concat texts) items in pr_of (Model.Parsed.to_datetime q)) =
+      pok (Model.DateTime.mk_dtz (Model.DateTime.mk_ndt du (back_time off (time_kept (apply_ws ws Model.Parsed.parsed_new) tl))) off) /\
+    (forall v, Model.Parsed.p_second (apply_ws ws Model.Parsed.parsed_new) = Some v -> v = ss tl) /\
+    (forall k, Model.Parsed.p_nanosecond (apply_ws ws Model.Parsed.parsed_new) = Some k -> on = Some k).
+Proof. exact general_dtz_roundtrip. Qed.
+Print Assumptions C13_general_dtz_roundtrip_partial.
+
+(* premises on the item list only ([dtz_static]: the class, the three kinds of fields available, sufficient
+   date and time combinations, an offset item, one fraction precision), for every value of [valid_dtz]:
+   the UTC date-time with the printed fields of the time, same offset *)
+Theorem C13_class_dtz_roundtrip : forall items k,
+  dtz_static k items = true -> k = 3 \/ k = 6 \/ k = 9 ->
+  forall yu ou z, valid_dtz yu ou z ->
+  exists a text,
+    Model.Format.fa_of_dtz z = Val a /\
+    Model.Format.write_items a items [] = Model.Format.fok text /\
+    (let+ q := parse Model.Parsed.parsed_new text items in pr_of (Model.Parsed.to_datetime q)) =
+      pok (Model.DateTime.mk_dtz
+             (Model.DateTime.mk_ndt (Model.DateTime.nd_date (Model.DateTime.dz_utc z))
+                (static_time_value items k (Model.DateTime.nd_time (Model.DateTime.dz_utc z))))
+             (Model.DateTime.dz_off z)).
+Proof. exact static_dtz_roundtrip. Qed.
+Print Assumptions C13_class_dtz_roundtrip.
+
+Theorem C13_class_dtz_parse_from_str : forall fmt items k,
+  items_of fmt = Val (Some items) -> dtz_static k items = true -> k = 3 \/ k = 6 \/ k = 9 ->
+  forall yu ou z, valid_dtz yu ou z ->
+  exists a text,
+    Model.Format.fa_of_dtz z = Val a /\
+    Model.Format.delayed_display a (Model.Strftime.sf_new fmt) = Model.Format.fok text /\
+    dt_parse_from_str text fmt =
+      pok (Model.DateTime.mk_dtz
+             (Model.DateTime.mk_ndt (Model.DateTime.nd_date (Model.DateTime.dz_utc z))
+                (static_time_value items k (Model.DateTime.nd_time (Model.DateTime.dz_utc z))))
+             (Model.DateTime.dz_off z)).
+Proof. exact class_dtz_parse_from_str. Qed.
+Print Assumptions C13_class_dtz_parse_from_str.
+
+(* "%Y-%m-%dT%H:%M:%S%z" / "%:z", "%Y-%m-%d %H:%M:%S%.3f %:z", "%a, %d %b %Y %H:%M:%S %z" (the RFC 2822 shape)
+   are members; a list without an offset item is not *)
+Example C13_class_dtz_members :
+  dtz_static 9 (DTZ_FMT false) = true /\ dtz_static 9 (DTZ_FMT true) = true /\
+  dtz_static 3 (YMD_FMT ++ Space [32] :: Gen.Strftime.SF_T_FMT ++ [IFixed F_Nanosecond3; Space [32]; IFixed F_TimezoneOffsetColon]) = true /\
+  dtz_static 9 [IFixed F_ShortWeekdayName; Literal [44]; Space [32]; num0 N_Day; Space [32]; IFixed F_ShortMonthName; Space [32];
+                num0 N_Year; Space [32]; num0 N_Hour; Literal [58]; num0 N_Minute; Literal [58]; num0 N_Second; Space [32];
+                IFixed F_TimezoneOffset] = true /\
+  dtz_static 9 NDT_T_FMT = false.
+Proof. exact dtz_static_members. Qed.
+Print Assumptions C13_class_dtz_members.
 
 (* the entry points' lazily driven loops coincide with the loops over the yielded item list *)
 Theorem C13_parse_sf_loop_is_parse_items : forall items fuel p s st, yields st items -> (List.length items < fuel)%nat ->
